@@ -31,9 +31,15 @@ var $callDeferred = (deferred, jsErr, fromPanic) => {
     var outerPanicStackDepth = $panicStackDepth;
     var outerPanicValue = $panicValue;
 
-    var localPanicValue = $curGoroutine.panicStack.pop();
-    if ($curGoroutine.pendingFrames.length > $curGoroutine.panicStack.length) {
-        $curGoroutine.pendingFrames.pop(); /* it was a pending panic of a resumed frame */
+    /* The panic handled here: the one just raised by $panic, or the pending panic of this very frame when it is
+       resumed (pending panics of frames called from a deferred call of this one are left for those frames). */
+    var localPanicValue;
+    if ($curGoroutine.panicStack.length > $curGoroutine.pendingFrames.length) {
+        localPanicValue = $curGoroutine.panicStack.pop();
+    } else if ($curGoroutine.pendingFrames.length > 0 && deferred !== null &&
+        $curGoroutine.pendingFrames[$curGoroutine.pendingFrames.length - 1] === $curGoroutine.deferStack.indexOf(deferred)) {
+        localPanicValue = $curGoroutine.panicStack.pop();
+        $curGoroutine.pendingFrames.pop();
     }
     var pendingBefore = $curGoroutine.pendingFrames.length;
     if (localPanicValue !== undefined) {
